@@ -730,3 +730,15 @@ package gateway
 //@   ensures [C13] no_disconnect_otherwise: !(old(state(h)) == 1 || old(state(h)) == 3) ==> h.snOutN == s0 && sameSlice(h.pktBuffer, old(h.pktBuffer))
 //@   ensures [C13] client_connection_released: calls(snCancel) == old(calls(snCancel)) + 1
 
+
+// ---- C15: a session's state is its own ----
+// newHandler builds the state of one session from nothing but the shared (read-only) configuration: everything a
+// step of the session writes (state, topic-ID sequence, registrations, transaction store, buffers) is fresh.
+//@ func newHandler
+//@   nopanic [C25]
+//@   requires [C15] cfg: cfg != nil
+//@   ensures [C15] own_state: fresh(result) && fresh(result.state) && fresh(result.topicID) && fresh(result.transactions) &&
+//@      deref(result.state) == 0 && len(result.pktBuffer) == 0 && !result.topicIDsUsedUp
+//@   ensures [C15] shares_only_the_configuration: result.cfg == cfg && result.predefinedTopics == predefinedTopics
+//@   ensures [C15,C25] establishes_the_session_invariant: storeInv(result.transactions) && topicSeq(result) && regTypes(result) && boundOnce(result) &&
+//@      txEntries(result) && bufWF(result) && connTx(result)
